@@ -1579,3 +1579,177 @@ func ctxOverEdge(c *Ctx, b *ssa.BasicBlock, succIdx int, depth int) bool {
 	}
 	return some
 }
+
+// ---- C08: a recognised reply is filed, whatever the session's history -------------------------------------------------
+
+func checkStoreUnconditional(c *Ctx, r *Report, rule string) {
+	for _, name := range []string{"storeMessage", "storeSubscriptionMessage"} {
+		fn := c.LookupFunc("driver/netconf", "Driver", name)
+		if fn == nil {
+			r.Anchor(rule, "(*netconf.Driver)."+name)
+			continue
+		}
+		isStore := func(in ssa.Instruction) bool {
+			_, ok := in.(*ssa.MapUpdate)
+			return ok
+		}
+		construct := name + " files on every path"
+		if ret, rr := mustCallBeforeReturn(c, fn, isStore); ret != nil {
+			r.Bad(rule, construct, c.Pos(ret.Pos()), name+" can return without putting the message into its map: a reply that arrived in full and was recognised is dropped (for instance because an earlier call timed out), and the call it belongs to ends in a timeout", rr.witness(c, ret)...)
+		} else {
+			r.OK(rule, construct, c.Pos(fn.Pos()), "every return is preceded by the map update")
+		}
+	}
+}
+
+// ---- C09: the hello is read with the end-of-message delimiter, whatever options the caller passed -------------------
+//
+// The hello exchange is always framed with ]]>]]>. netconf.NewDriver therefore installs that delimiter as the channel's
+// prompt pattern itself, *behind* the option loop (a prompt-pattern option meant for CLI drivers that reaches the
+// NETCONF constructor -- a shared option list, a platform's options -- must not decide how the hello is read).
+
+func checkHelloDelimiterInstalled(c *Ctx, r *Report, rule string) {
+	fn := c.LookupFunc("driver/netconf", "", "NewDriver")
+	gen := c.LookupFunc("driver/generic", "", "NewDriver")
+	if fn == nil || gen == nil {
+		r.Anchor(rule, "netconf.NewDriver / generic.NewDriver")
+		return
+	}
+	construct := "NewDriver installs the 1.0 delimiter behind the options"
+	isInstall := func(in ssa.Instruction) bool {
+		f, _, v, ok := fieldStore(in)
+		if !ok || f == nil || f.Name() != "PromptPattern" {
+			return false
+		}
+		vf, _, isLoad := fieldLoad(v)
+		return isLoad && vf != nil && vf.Name() == "v1Dot0Delim"
+	}
+	var genCalls []ssa.Instruction
+	for _, ci := range staticCallsTo(fn, gen) {
+		genCalls = append(genCalls, ci)
+	}
+	if len(genCalls) != 1 {
+		r.Unk(rule, construct, c.Pos(fn.Pos()), "netconf.NewDriver does not call generic.NewDriver exactly once")
+		return
+	}
+	rr := reachFrom(fn, genCalls[0], isInstall, nil)
+	bad := ""
+	for in := range rr.visited {
+		ret, ok := in.(*ssa.Return)
+		if !ok || len(ret.Results) != 2 || !isNilConst(ret.Results[1]) {
+			continue
+		}
+		bad = c.Pos(ret.Pos())
+	}
+	if bad != "" {
+		r.Bad(rule, construct, bad, "netconf.NewDriver can return a driver without having stored the end-of-message delimiter into the channel's prompt pattern after the options were applied: a prompt-pattern option in the caller's list then decides how the server's hello is read, the hello is never recognised and Open ends in a timeout for every cell of the negotiation table")
+	} else {
+		r.OK(rule, construct, c.Pos(fn.Pos()), "every success return is preceded by PromptPattern = v1Dot0Delim, behind generic.NewDriver")
+	}
+}
+
+// ---- C14: a configured key that cannot be read or parsed fails the open ----------------------------------------------
+//
+// "The connection uses the configured key": both ssh transports read (and parse) the configured private key before they
+// connect, and the error of that step must surface. OpenSSH only warns about an identity file it cannot use and goes on
+// with the password or a default identity -- a system transport that merely logs the failure connects without the key
+// the caller configured.
+
+func checkKeyErrorsSurface(c *Ctx, r *Report, rule string) {
+	n := 0
+	for _, fn := range c.LibFns {
+		if fn.Pkg == nil || !strings.HasSuffix(fn.Pkg.Pkg.Path(), "/transport") {
+			continue
+		}
+		ord := 0
+		for _, ci := range callInstrs(fn) {
+			call, ok := ci.(*ssa.Call)
+			if !ok {
+				continue
+			}
+			o := CalleeObj(call)
+			if o == nil || o.Pkg() == nil {
+				continue
+			}
+			isKeyStep := false
+			switch {
+			case o.Pkg().Path() == "os" && o.Name() == "ReadFile":
+				// the file read is the private key's: the argument loads a field named PrivateKeyPath
+				for _, a := range call.Call.Args {
+					if f, _, isLoad := fieldLoad(a); isLoad && f != nil && f.Name() == "PrivateKeyPath" {
+						isKeyStep = true
+					}
+				}
+			case strings.HasSuffix(o.Pkg().Path(), "crypto/ssh") && strings.HasPrefix(o.Name(), "ParsePrivateKey"):
+				isKeyStep = true
+			}
+			if !isKeyStep {
+				continue
+			}
+			n++
+			ord++
+			construct := fmt.Sprintf("%s key step #%d (%s.%s)", shortFn(fn), ord, o.Pkg().Name(), o.Name())
+			// the failing edge of the step's error test does nothing but log and return
+			errv := resultOf(call, 1)
+			why := ""
+			if errv == nil || errv.Referrers() == nil {
+				why = "the error result is discarded"
+			} else {
+				tested := false
+				for _, ref := range *errv.Referrers() {
+					bo, isBo := ref.(*ssa.BinOp)
+					if !isBo || bo.Referrers() == nil {
+						continue
+					}
+					x, nonNilOnTrue, isNil := nilCheck(bo)
+					if !isNil || x != errv {
+						continue
+					}
+					for _, use := range *bo.Referrers() {
+						iff, isIf := use.(*ssa.If)
+						if !isIf {
+							continue
+						}
+						tested = true
+						idx := 1
+						if nonNilOnTrue {
+							idx = 0
+						}
+						fail := iff.Block().Succs[idx]
+						ifb := iff.Block()
+						rr := reachFrom(fn, iff, isReturn, func(bb *ssa.BasicBlock, si int) bool { return bb != ifb || bb.Succs[si] == fail })
+						for in := range rr.visited {
+							cl, isCall := in.(*ssa.Call)
+							if !isCall {
+								continue
+							}
+							if co := CalleeObj(cl); co != nil && co.Pkg() != nil && (strings.HasSuffix(co.Pkg().Path(), "/logging") || co.Pkg().Path() == "fmt" || co.Pkg().Path() == "errors") {
+								continue
+							}
+							if _, isB := cl.Call.Value.(*ssa.Builtin); isB {
+								continue
+							}
+							why = fmt.Sprintf("on the failing edge the open carries on (call at %s) instead of returning the error", c.Pos(cl.Pos()))
+						}
+						for in := range rr.visited {
+							if ret, isRet := in.(*ssa.Return); isRet && len(ret.Results) > 0 && isNilConst(ret.Results[len(ret.Results)-1]) {
+								why = fmt.Sprintf("on the failing edge the function returns nil at %s", c.Pos(ret.Pos()))
+							}
+						}
+					}
+				}
+				if !tested {
+					why = "the error is never tested"
+				}
+			}
+			if why == "" {
+				r.OK(rule, construct, c.Pos(call.Pos()), "the failing edge only logs and returns the error")
+			} else {
+				r.Bad(rule, construct, c.Pos(call.Pos()), "the error of reading / parsing the configured private key does not fail the open ("+why+"): the connection is made without the key the caller configured -- OpenSSH only warns about an unusable identity file and logs in with the password or a default identity")
+			}
+		}
+	}
+	if n == 0 {
+		r.Unk(rule, "key steps", "-", "no read / parse of the configured private key found in the transports")
+	}
+}
